@@ -40,15 +40,14 @@ TRUSTED_BASE = [
     "SevenZipDecompressor.decompress; py7zr.py7zr.time replaced by a scripted clock (no source hooks)",
 ]
 ASSUMPTIONS = [
-    "archives are intact (no exception inside a worker); one extraction per archive object (the repeated-extraction "
-    "scenario is explored separately and reported)",
-    "the model takes 'has a registered target' per member as data; the explored archives keep member ids contiguous "
-    "inside each folder (no empty-stream entry between two data files of a folder), so the member-numbering defect "
-    "(kind multifolder-empty-entry-id, repaired in /repo by a4d8f3b) plays no role",
+    "archives are intact (no exception inside a worker); sessions with two extractions are covered by the `accounts` "
+    "model and the repeated-extraction scenario",
+    "the model takes 'has a registered target' per member as data (the id bookkeeping of ArchiveFileList is not "
+    "modelled); archives with directories between the data files of any folder are explored",
     "the decoder honours max_length (chunks_ok) for the per-member statement sum(u) = size; the general statement "
     "sum(u) = bytes decoded needs only that the loop ends",
-    "timing statements (all_before_close, close_returns_when_backlog_fits, the refuted limit) are about the timed "
-    "FIFO model: scheduling latency zero, handler time the only cost; partial on wall-clock timing",
+    "timing statements (all_before_close, close_wait_bounded) are about the timed FIFO model: scheduling latency zero, "
+    "handler time the only cost, handlers terminate; the harness bounds its wait for close()",
     "report_start's second argument (compressed size) is taken from the implementation's own listing; the property "
     "does not constrain it",
 ]
@@ -257,7 +256,8 @@ def data_for(name, size):
 
 def build_archive(spec, target):
     """spec = {"sessions": [{"chain": c, "entries": [[name, kind, size], ...]}, ...]}; kind in "file" | "dir" | "link" (then the
-    third component is the link target).  Directories and links only in the first session (they are written from a staging directory)."""
+    third component is the link target).  Directories anywhere; links only in the first session, before the writestr
+    members (they are written from a staging directory)."""
     stage = tempfile.mkdtemp(prefix="c18stage")
     try:
         for si, s in enumerate(spec["sessions"]):
@@ -472,11 +472,22 @@ def run_extraction(apath, case, sh, workdir):
         rt = z.reporterd
         obs["n_before_close"] = len(cb.ev)
         t0 = _time.perf_counter()
-        try:
-            z.close()
-        except Exception as e:  # noqa
-            obs["close_exc"] = "%s: %s" % (type(e).__name__, str(e)[:200])
-        t1 = _time.perf_counter()
+        box = {}
+
+        def do_close():
+            try:
+                z.close()
+            except Exception as e:  # noqa
+                box["exc"] = "%s: %s" % (type(e).__name__, str(e)[:200])
+            box["t1"] = _time.perf_counter()
+        ct = threading.Thread(target=do_close, daemon=True)
+        ct.start()
+        ct.join(case.get("close_wait", 30.0))        # close() joins without timeout: the test bounds the wait
+        if ct.is_alive():
+            obs["close_exc"] = "close() did not return within %.0f s" % case.get("close_wait", 30.0)
+        else:
+            obs["close_exc"] = box.get("exc")
+        t1 = box.get("t1", _time.perf_counter())
         obs["n_at_return"] = len(cb.ev)
         obs["alive_after_close"] = bool(rt is not None and rt.is_alive())
         if obs["close_exc"] is not None and rt is not None:
@@ -806,18 +817,25 @@ def own_specs(rng, tier):
     S.append({"sessions": [ses("zstd", ("p1", "file", 100), ("p2", "file", 0), ("p3", "file", 200)),
                            ses("copy", ("q1", "file", 30), ("q2", "file", 31), ("q3", "file", 32))]})
     S.append({"sessions": [ses("copy", ("w%d" % i, "file", 20 + i)) for i in range(4)]})
+    # directories between the data files of the first and of later folders, and at the end
+    S.append({"sessions": [ses("copy", ("k1", "file", 21), ("kd1", "dir", 0), ("k2", "file", 22)),
+                           ses("lzma2", ("kd2", "dir", 0), ("k3", "file", 300), ("kd2/sub", "dir", 0), ("kd2/k4", "file", 44),
+                               ("kd3", "dir", 0)),
+                           ses("deflate", ("k5", "file", 55), ("kd4", "dir", 0), ("k6", "file", 66))]})
+    S.append({"sessions": [ses("copy", ("j1", "file", 10)), ses("copy", ("jd", "dir", 0)), ses("copy", ("j2", "file", 12))]})
     n_rand = 4 if tier == "quick" else 40
     for k in range(n_rand):
         sessions = []
         used = 0
         for si in range(rng.choice([1, 2, 2, 3, 4])):
             ents = []
-            if si == 0 and rng.random() < 0.5:
-                for di in range(rng.choice([1, 2])):
-                    ents.append(("g%d_dir%d" % (k, di), "dir", 0))
             for fi in range(rng.choice([1, 1, 2, 3, 4])):
+                if rng.random() < 0.3:
+                    ents.append(("g%d_s%d_dir%d" % (k, si, fi), "dir", 0))
                 ents.append(("g%d_s%d_f%d" % (k, si, fi), "file", rng.choice([0, 1, 7, 100, 1000, 5000, 70000])))
                 used += 1
+            if rng.random() < 0.2:
+                ents.append(("g%d_s%d_dirz" % (k, si), "dir", 0))
             sessions.append(ses(rng.choice(arch.FAST_CHAINS), *ents))
         S.append({"sessions": sessions})
     return S
@@ -1076,7 +1094,7 @@ def timing_case(workdir, n_members, delay_ms):
         build_archive(spec, p)
     members, folders = spec_members(spec)
     case = {"archive": "timing_%d" % n_members, "source": "path", "out": "factory", "targets": None,
-            "handler": "held", "delay_ms": delay_ms}
+            "handler": "held", "delay_ms": delay_ms, "close_wait": 10.0 + 4.0 * (3 * n_members + 2) * delay_ms / 1000.0}
     sh = make_shape(members, folders, "path", None, csizes(p))
     case["mode"] = sh["mode"]
     install()
@@ -1091,16 +1109,15 @@ def timing_case(workdir, n_members, delay_ms):
 
 
 def check_close(ctx, rep, rng, tier):
-    """handlers that block briefly; the reporter is held until close() so that the whole account is owed at close()"""
+    """handlers that block briefly; the reporter is held until close() so that the whole account is owed at close():
+    close() must return normally with every event delivered, however long the backlog (the wait is bounded by the
+    test: close_wait)"""
     model = ctx["model"]
     workdir = ctx["workdir"]
     scen = [(3, 30), (8, 50), (100, 5)] if tier == "quick" else [(3, 30), (5, 20), (8, 50), (100, 5), (300, 2), (12, 100)]
     res = []
     for n, d in scen:
         r = timing_case(workdir, n, d)
-        for _ in range(2):       # far below the limit: a failure must persist (a loaded machine stretches sleeps)
-            if n * 3 * d / 1000.0 < 0.6 and (r["close_exc"] or r["delivered_after"]):
-                r = timing_case(workdir, n, d)
         unit = d * 1024 // 1000 + 1
         pred = model.call("ev_close", [0, [[0, unit]] * r["events"], 0]) if model is not None else None
         r["model"] = pred
@@ -1108,66 +1125,96 @@ def check_close(ctx, rep, rng, tier):
         r["owed_s"] = owed
         res.append(r)
         rep.count(("close", n, d), nontrivial=True)
-        margin = owed < 0.7 or owed > 1.25          # away from the 1 s threshold the wall clock cannot blur the verdict
-        if pred is not None and margin and bool(pred[0]) != (r["close_exc"] is not None):
-            rep.violation("close(): model predicts raised=%r for %d events x %d ms, implementation: %r" % (
-                bool(pred[0]), r["events"], d, r["close_exc"]), {"kind": "close-timing", "members": n, "delay_ms": d, "result": r},
-                match_keys={"kind": "close-model-disagrees", "backlog_over_1s": owed > 1.0})
-        if r["close_exc"] is not None or r["delivered_after"] > 0 or r["delivered_at_return"] != r["events"]:
+        rep.dist("close_backlog", "over 1 s" if owed > 1.0 else "under 1 s")
+        if r["close_exc"] is not None or r["delivered_after"] > 0 or r["delivered_at_return"] != r["events"] or not r["kinds_ok"]:
             rep.violation(
                 "handlers blocking %d ms each, %d members (%d events, %.2f s of handler time owed at close()): close() %s after "
-                "%.2f s with %d of %d events delivered; %d handler calls were made after close() had %s" % (
+                "%.2f s with %d of %d events delivered; %d handler calls were made afterwards" % (
                     d, n, r["events"], owed, "raised " + r["close_exc"] if r["close_exc"] else "returned", r["close_s"],
-                    r["delivered_at_return"], r["events"], r["delivered_after"], "raised" if r["close_exc"] else "returned"),
+                    r["delivered_at_return"], r["events"], r["delivered_after"]),
                 {"kind": "close-timing", "members": n, "delay_ms": d, "result": r},
-                match_keys={"kind": "close-join-timeout", "backlog_over_1s": owed > 1.0,
+                match_keys={"kind": "close-incomplete", "backlog_over_1s": owed > 1.0,
                             "raised": r["close_exc"] is not None})
+        elif r["close_s"] < 0.9 * owed:
+            rep.violation("close() returned after %.2f s although %.2f s of handler time were owed: the harness did not hold "
+                          "the reporter back" % (r["close_s"], owed), {"kind": "close-timing", "members": n, "delay_ms": d},
+                          concrete=False, match_keys={"kind": "close-harness"})
     rep.extra["close_scenarios"] = res
 
 
-def repeat_case(workdir, delay_ms):
+def repeat_case(workdir, delay_ms, model=None):
+    """reset() + a second extraction with its own callback in the same session"""
     spec = {"sessions": [{"chain": "copy", "entries": [["r%d" % i, "file", 40] for i in range(6)]}]}
     p = os.path.join(workdir, "repeat.7z")
     if not os.path.exists(p):
         build_archive(spec, p)
     cb1, cb2 = Rec(delay_ms / 1000.0), Rec(delay_ms / 1000.0)
     z = py7zr.SevenZipFile(p)
+    z.q = SchedQueue(my_tid())
+    q = z.q
     z.extractall(factory=arch.Collect(), callback=cb1)
-    _time.sleep(0.15)           # the first account is fully delivered
-    n1 = len(cb1.ev)
     z.reset()
-    z.extractall(factory=arch.Collect(), callback=cb2)
+    z.extract(targets=["r1", "r4"], factory=arch.Collect(), callback=cb2)
+    n2 = len(cb2.ev)
     exc = None
     try:
         z.close()
     except Exception as e:  # noqa
         exc = "%s: %s" % (type(e).__name__, e)
-    _time.sleep(0.1)
-    return {"first_account_complete": n1 == 20, "cb1_after_first": [a[0] for a, _, _ in cb1.ev[n1:]],
-            "cb2": [a[0] for a, _, _ in cb2.ev], "close_exc": exc,
-            "threads": len(set(t for _, t, _ in cb1.ev + cb2.ev))}
+    at_return = (len(cb1.ev), len(cb2.ev))
+    _time.sleep(0.05)
+
+    def flat(cb):
+        return [(a[0], a[1] if a[0] in ("s", "e") else None, a[2] if a[0] in ("s", "e") else (a[1] if a[0] == "u" else None))
+                for a, _, _ in cb.ev]
+    puts = [it for _, it in q.log]
+    cs0 = str(csizes(p)[0])
+    want1 = [("pre", None, None)] + [x for i in range(6) for x in (("s", "r%d" % i, cs0 if i == 0 else "0"), ("u", None, "40"),
+                                                                    ("e", "r%d" % i, "40"))] + [("post", None, None)]
+    want2 = [("pre", None, None)] + [x for i in range(6) for x in
+                                     ([("s", "r%d" % i, cs0 if i == 0 else "0")] + ([("u", None, "40")] if i in (1, 4) else [])
+                                      + [("e", "r%d" % i, "40")])] + [("post", None, None)]
+    res = {"cb1": "".join(k[0][0] for k in flat(cb1)), "cb2": "".join(k[0][0] for k in flat(cb2)), "close_exc": exc,
+           "cb1_ok": flat(cb1) == want1, "cb2_ok": flat(cb2) == want2, "late": (len(cb1.ev), len(cb2.ev)) != at_return,
+           "sentinels": sum(1 for it in puts if it is None),
+           "threads": len(set(t for _, t, _ in cb1.ev + cb2.ev)), "model_ok": None}
+    if model is not None:
+        # csize of r0 is whatever the implementation listed (second argument of report_start is not constrained)
+        def tr(it):
+            if it is None:
+                return []
+            k = {"pre": 0, "post": 1, "s": 2, "u": 3, "e": 4}[it[0]]
+            if k < 2:
+                return [[k]]
+            if k == 3:
+                return [[3, 0, int(it[2])]]
+            return [[k, 0, [ord(c) for c in it[1]], int(it[2])]]
+        acc = model.call("ev_accounts", [tr(it) for it in puts])
+        res["model_ok"] = [[tuple(x) for x in ev_erase(a)] for a in acc] == [[tuple(x) for x in flat(cb1)],
+                                                                             [tuple(x) for x in flat(cb2)]]
+    return res
 
 
 def check_repeat(ctx, rep, rng, tier):
-    """outside the literal quantifier (one extraction per object) but the same machinery: reset() + a second
-    extraction with its own callback before close()"""
+    """two extractions with callbacks in one session: each callback must receive exactly its own extraction's complete
+    account (the model's `accounts` of the recorded queue), close() returns normally"""
     workdir = ctx["workdir"]
     worst = None
     for k in range(3 if tier == "quick" else 10):
-        r = repeat_case(workdir, rng.choice([0, 1, 2]))
+        r = repeat_case(workdir, rng.choice([0, 1, 2]), ctx["model"])
         rep.count(("repeat", k), nontrivial=True)
-        bad = r["cb1_after_first"] or r["cb2"] != ["pre"] + ["s", "u", "e"] * 6 + ["post"] or r["close_exc"]
-        if bad and (worst is None or (r["close_exc"] and not worst["close_exc"])):
+        bad = not r["cb1_ok"] or not r["cb2_ok"] or r["close_exc"] or r["late"] or r["model_ok"] is False
+        if bad and worst is None:
             worst = r
-    rep.extra["repeat_extraction"] = worst or "second callback received the complete account in every trial"
+    rep.extra["repeat_extraction"] = worst or "each callback received exactly its own extraction's account in every trial"
     if worst:
         rep.violation(
-            "second extraction (after reset()) with its own callback on the same archive object: the first callback received %d "
-            "events of the second extraction, the second callback received %d of 20 (%s); close(): %s" % (
-                len(worst["cb1_after_first"]), len(worst["cb2"]), "".join(k[0] for k in worst["cb2"]),
-                worst["close_exc"] or "returned"),
+            "second extraction (after reset()) with its own callback in the same session: first callback received %r "
+            "(complete own account: %r), second %r (complete own account: %r); close(): %s; agrees with model accounts: %r" % (
+                worst["cb1"], worst["cb1_ok"], worst["cb2"], worst["cb2_ok"], worst["close_exc"] or "returned",
+                worst["model_ok"]),
             {"kind": "repeat", "result": worst},
-            match_keys={"kind": "second-extraction-second-reporter", "extractions": 2})
+            match_keys={"kind": "second-extraction-account", "extractions": 2})
 
 
 def mp_case(arg):
@@ -1328,9 +1375,9 @@ def replay(d):
             return 1 if (res["close_exc"] or res["delivered_after"] or res["delivered_at_return"] != res["events"]) else 0
         if kind == "repeat":
             for _ in range(5):
-                res = repeat_case(workdir, 1)
+                res = repeat_case(workdir, 1, model)
                 print(json.dumps(res))
-                if res["cb1_after_first"] or res["close_exc"] or len(res["cb2"]) != 20:
+                if not res["cb1_ok"] or not res["cb2_ok"] or res["close_exc"] or res["late"] or res["model_ok"] is False:
                     return 1
             return 0
         if kind == "mp":
